@@ -332,8 +332,29 @@ impl Rep {
     }
 }
 
+/// a primitive cube root of unity mod r: k -> lambda*k is the curve endomorphism (x, y) -> (omega*x, y) of y^2 = x^3 + b
+/// (same y, different x), on G1 and on the twist alike (which of lambda, lambda^2 belongs to which omega is irrelevant here)
+pub fn lambda_r() -> &'static BigUint {
+    use std::sync::OnceLock;
+    static L: OnceLock<BigUint> = OnceLock::new();
+    L.get_or_init(|| {
+        let r = zp::r();
+        let e = (r - 1u32) / 3u32;
+        assert!(((r - 1u32) % 3u32).is_zero());
+        let mut g = BigUint::from(2u32);
+        loop {
+            let l = g.modpow(&e, r);
+            if !l.is_one() {
+                assert!(((&l * &l + &l + 1u32) % r).is_zero());
+                return l;
+            }
+            g += 1u32;
+        }
+    })
+}
+
 /// relation between the discrete logs of a pair
-pub const RELATIONS: [&str; 7] = ["independent", "equal", "opposite", "identity-right", "identity-left", "doubled", "neighbour"];
+pub const RELATIONS: [&str; 9] = ["independent", "equal", "opposite", "identity-right", "identity-left", "doubled", "neighbour", "same-y-other-x", "opposite-y-other-x"];
 
 pub fn related(s: &mut Src, rel: usize) -> (BigUint, BigUint, &'static str) {
     let r = zp::r();
@@ -349,8 +370,15 @@ pub fn related(s: &mut Src, rel: usize) -> (BigUint, BigUint, &'static str) {
         3 => (a, BigUint::zero()),
         4 => (BigUint::zero(), a),
         5 => (a.clone(), (&a * 2u32) % r),
-        _ => (a.clone(), (&a + 1u32) % r),
+        6 => (a.clone(), (&a + 1u32) % r),
+        7 | 8 => {
+            // B = +-phi(A) with phi the order-3 endomorphism: B has the same (resp. opposite) y as A and a different x
+            let l = lambda_r();
+            let l = if s.bool() { l.clone() } else { (l * l) % r };
+            let b = (&a * l) % r;
+            (a.clone(), if rel == 7 { b } else { zp::neg_mod(&b, r) })
+        }
+        _ => unreachable!(),
     };
     (a, b, RELATIONS[rel])
 }
-
